@@ -80,6 +80,7 @@ func (e *ExchangeJSightSchema) Notation() notation.SchemaNotation {
 }
 
 func (e *ExchangeJSightSchema) Compile() (err error) {
+	verifYield("exchange-jsight-compile")
 	e.onceCompile.Do(func() {
 		err = e.buildContent()
 		if err != nil {
